@@ -15,6 +15,9 @@
      Plans.Wait(id):    waiters.Get(id) !ok -> store.Read(id); else block on the channel / ctx, then store.Read
      Workstream.Plan:   store.Read(id)
      Workstream.Status: first tick: store.Read(id); err -> yield err; else yield plan, then plan.State.Status
+                        (LStatus has no interval argument: what Status delivers does not depend on the interval;
+                         a non-positive interval is clamped by the code (302ef19) and is exercised by the
+                         correspondence with 0, -1 ns and -(1<<62) ns - a panic there is a violation)
      Workstream.Submit: validate, defaults (fresh v7 id, NotStarted), SubmitTime = now, store.Create
 
    A Start is four steps because the code is; calls in progress are kept in `inprog`, and the mutex is
